@@ -1509,6 +1509,7 @@ return 1;""",
         # end for arg in args:
 
         # Add implied argument initialization to pre_call_code
+        implied_start = len(pre_call_code)
         for arg in arg_implied:
             intent_blk = self.implied_blk(node, arg, pre_call_code)
 
@@ -1600,6 +1601,14 @@ return 1;""",
 
         # build up code for a function
         for npyargs, post_declare_len, post_parse_len, pre_call_len, call_list in default_calls:
+            if pre_call_len <= implied_start:
+                # A call without the trailing default arguments
+                # still passes the implied arguments.
+                pre_call_case = (pre_call_code[:pre_call_len] +
+                                 pre_call_code[implied_start:])
+            else:
+                pre_call_case = pre_call_code[:pre_call_len]
+            pre_call_len = len(pre_call_case)
             if found_default:
                 PY_code.append("case %d:" % npyargs)
                 PY_code.append(1)
@@ -1636,7 +1645,7 @@ return 1;""",
                     if need_blank:
                         PY_code.append("")
                     PY_code.append("// pre_call")
-                PY_code.extend(pre_call_code[:pre_call_len])
+                PY_code.extend(pre_call_case)
                 need_blank = True
             fmt.PY_call_list = call_list
 
